@@ -1,1 +1,2 @@
 
+import FontcProps.C07
